@@ -1488,6 +1488,14 @@ public:
         graphidToE_.at(*currEdge) = 00;
 
         EToGraphid_.erase(edgeObject);
+
+        // the deleted edge is forgotten in the index maps too
+        typename std::map<Eref, EdgeIndex>::iterator foundIndex = EToIndex_.find(edgeObject);
+        if (foundIndex != EToIndex_.end())
+        {
+          indexToE_.at(foundIndex->second) = 00;
+          EToIndex_.erase(foundIndex);
+        }
       }
     }
   }
@@ -1506,6 +1514,14 @@ public:
         graphidToN_.at(*currNode) = 00;
 
         NToGraphid_.erase(nodeObject);
+
+        // the deleted node is forgotten in the index maps too
+        typename std::map<Nref, NodeIndex>::iterator foundIndex = NToIndex_.find(nodeObject);
+        if (foundIndex != NToIndex_.end())
+        {
+          indexToN_.at(foundIndex->second) = 00;
+          NToIndex_.erase(foundIndex);
+        }
       }
     }
   }
